@@ -1,4 +1,6 @@
 import AC.Props.C10
 open AC.Props.C10
-#print axioms C10_sublist
-#print axioms C10_core_alternatives
+#print axioms C10_optimize
+#print axioms C10_not_longer
+#print axioms C10_invariant
+#print axioms C10_uses_unique
